@@ -14,8 +14,9 @@ def derive_seed(*parts):
 
 
 class Tape:
-    def __init__(self, seed=None, replay=None):
+    def __init__(self, seed=None, replay=None, index=0):
         self.seed = seed
+        self.index = index   # run index inside its kind (used by enumerating kinds)
         self.replay = list(replay) if replay is not None else None
         self.rng = random.Random(seed) if replay is None else None
         self.rec = []       # values
